@@ -96,6 +96,27 @@ func atomCall(e ast.Expr, name string) (int, []int, bool) {
 	return n, uses, true
 }
 
+func atomCallExpr(x ast.Node, name string) (int, []int, bool) {
+	e, ok := x.(ast.Expr)
+	if !ok {
+		return 0, nil, false
+	}
+	return atomCall(e, name)
+}
+
+// squeeze removes layout: white space and statement separators
+func squeeze(s string) string {
+	var b strings.Builder
+	for _, r := range s {
+		switch r {
+		case ' ', '\t', '\n', ';':
+		default:
+			b.WriteRune(r)
+		}
+	}
+	return b.String()
+}
+
 func (g *fromGo) unknownStmt(s ast.Node) *Stmt { return &Stmt{K: Unknown, Text: show(g.fset, s)} }
 func (g *fromGo) unknownSE(s ast.Node) *SE     { return &SE{K: SUnknown, Text: show(g.fset, s)} }
 
@@ -143,6 +164,20 @@ func (g *fromGo) stmt(s ast.Stmt) *Stmt {
 			return &Stmt{K: PAct, N: n}
 		}
 		if c, ok := s.X.(*ast.CallExpr); ok {
+			if lit, isLit := c.Fun.(*ast.FuncLit); isLit && len(c.Args) == 0 {
+				// an effect atom inside an ordinary closure (ClosureActText): recognised only if untouched
+				n := -1
+				ast.Inspect(lit.Body, func(x ast.Node) bool {
+					if k, uses, ok := atomCallExpr(x, "A"); ok && len(uses) == 0 {
+						n = k
+					}
+					return true
+				})
+				if n >= 0 && squeeze(show(g.fset, s.X)) == squeeze(ClosureActText(n)) {
+					return &Stmt{K: Act, N: n}
+				}
+				return g.unknownStmt(s)
+			}
 			name := calleeName(c.Fun)
 			if name == "panic" && len(c.Args) == 1 {
 				if n, uses, ok := atomCall(c.Args[0], "PV"); ok && len(uses) == 0 {
